@@ -984,4 +984,430 @@ theorem modelSort_contract (ridOf : Key → Nat) : SortContract ridOf (modelSort
       intro x hx
       exact ht x ((foldr_insertBy_perm _ t).subset hx)
 
+/-! ### the scopes built by `CreateInformers`, reachable monitors -/
+
+theorem dedupNames_nodup (l : List Nat) : (dedupNames l).Nodup := by
+  induction l with
+  | nil => simp [dedupNames]
+  | cons n t ih =>
+    simp only [dedupNames, List.nodup_cons]
+    exact ⟨by simp, ih.filter _⟩
+
+theorem mem_dedupNames (l : List Nat) (n : Nat) : n ∈ dedupNames l ↔ n ∈ l := by
+  induction l with
+  | nil => simp [dedupNames]
+  | cons a t ih =>
+    simp only [dedupNames, List.mem_cons, List.mem_filter, decide_eq_true_eq, ih]
+    by_cases h : n = a <;> simp [h]
+
+/-- The informers `CreateInformersForNamespace` builds for one namespace from a duplicate-free name
+list cannot see the same object. -/
+theorem createForNs_apart (cfg : Cfg) (names : List Nat) (hn : names.Nodup)
+    (list : Option Nat → Option Nat → List Obj) (ns : Option Nat) :
+    (createForNs cfg names list ns).Pairwise (fun i j => scopesApart i j = true) := by
+  unfold createForNs
+  by_cases he : names.isEmpty = true
+  · simp [he]
+  · simp only [he, Bool.false_eq_true, if_false, List.pairwise_map]
+    refine hn.imp ?_
+    intro a b hab
+    cases ns <;> simp [scopesApart, hab]
+
+
+theorem mapInformers_informers (m : Monitor) (f : Informer → Informer) :
+    (m.mapInformers f).informers = m.informers.map f := by
+  unfold Monitor.mapInformers Monitor.informers
+  simp only [List.map_append, List.map_map]
+  congr 1
+  induction m.varying with
+  | nil => rfl
+  | cons p t ih => simp only [List.map_cons, List.flatten_cons, List.map_append, Function.comp, ih]
+
+/-- an informer whose cache holds, each key once, filtered images of objects of its own scope -/
+def GoodInformer (mc : MonCfg) (i : Informer) : Prop :=
+  KeysNodup Entry.key i.cache ∧ ∀ e ∈ i.cache, ∃ o, e = mkEntry mc.cfg o ∧ mc.pred i.ns i.name o = true
+
+theorem mem_handleWatch (cfg : Cfg) (c : Cache) (t : EvType) (o : Obj) (e : Entry)
+    (h : e ∈ (handleWatch cfg c t o).1) : e ∈ c ∨ (t ≠ .deleted ∧ e = mkEntry cfg o) := by
+  cases t with
+  | deleted =>
+    simp only [handleWatch] at h
+    exact Or.inl ((mem_kdel _ _ _ _).1 h).1
+  | added =>
+    simp only [handleWatch] at h
+    rcases (mem_kput _ _ _ _).1 h with h | h
+    · exact Or.inl h.1
+    · exact Or.inr ⟨by simp, h⟩
+  | modified =>
+    simp only [handleWatch] at h
+    rcases (mem_kput _ _ _ _).1 h with h | h
+    · exact Or.inl h.1
+    · exact Or.inr ⟨by simp, h⟩
+
+theorem keysNodup_handleWatch (cfg : Cfg) (c : Cache) (t : EvType) (o : Obj) (h : KeysNodup Entry.key c) :
+    KeysNodup Entry.key (handleWatch cfg c t o).1 := by
+  cases t with
+  | deleted => exact keysNodup_kdel _ _ _ h
+  | added => exact keysNodup_kput _ _ _ h
+  | modified => exact keysNodup_kput _ _ _ h
+
+theorem good_feed (mc : MonCfg) (evsOf : Informer → List WatchEv) (i : Informer)
+    (hev : ∀ ev ∈ evsOf i, ev.1 ≠ EvType.deleted → mc.pred i.ns i.name ev.2 = true)
+    (h : GoodInformer mc i) : GoodInformer mc (feed mc evsOf i) := by
+  unfold feed
+  split
+  · generalize evsOf i = evs at hev
+    suffices H : ∀ (c : Cache), (KeysNodup Entry.key c ∧ ∀ e ∈ c, ∃ o, e = mkEntry mc.cfg o ∧ mc.pred i.ns i.name o = true) →
+        (KeysNodup Entry.key (evs.foldl (fun c ev => (handleWatch mc.cfg c ev.1 ev.2).1) c) ∧
+          ∀ e ∈ evs.foldl (fun c ev => (handleWatch mc.cfg c ev.1 ev.2).1) c,
+            ∃ o, e = mkEntry mc.cfg o ∧ mc.pred i.ns i.name o = true) from H i.cache h
+    induction evs with
+    | nil => intro c hc; exact hc
+    | cons ev t ih =>
+      intro c hc
+      simp only [List.foldl_cons]
+      apply ih (fun ev' h' => hev ev' (List.mem_cons_of_mem _ h'))
+      refine ⟨keysNodup_handleWatch _ _ _ _ hc.1, fun e he => ?_⟩
+      rcases mem_handleWatch _ _ _ _ _ he with h1 | ⟨h1, h2⟩
+      · exact hc.2 e h1
+      · exact ⟨ev.2, h2, hev ev List.mem_cons_self h1⟩
+  · exact h
+
+theorem feed_ns (mc : MonCfg) (evsOf : Informer → List WatchEv) (i : Informer) :
+    (feed mc evsOf i).ns = i.ns ∧ (feed mc evsOf i).name = i.name := by
+  unfold feed; split <;> exact ⟨rfl, rfl⟩
+
+theorem watchOf_pred (p : Obj → Bool) (c : Cluster) (op : COp) :
+    ∀ ev ∈ watchOf p c op, ev.1 ≠ EvType.deleted → p ev.2 = true := by
+  intro ev hev hne
+  cases op with
+  | set o =>
+    simp only [watchOf] at hev
+    cases hold : kget Obj.key c o.key with
+    | none =>
+      rw [hold] at hev
+      by_cases hp : p o = true
+      · simp [hp] at hev; subst hev; exact hp
+      · simp [hp] at hev
+    | some old =>
+      rw [hold] at hev
+      by_cases hp : p o = true <;> by_cases hq : p old = true
+      · simp [hp, hq] at hev; subst hev; exact hp
+      · simp [hp, hq] at hev; subst hev; exact hp
+      · simp [hp, hq] at hev; subst hev; exact absurd rfl hne
+      · simp [hp, hq] at hev
+  | del k =>
+    simp only [watchOf] at hev
+    cases hold : kget Obj.key c k with
+    | none => rw [hold] at hev; simp at hev
+    | some old =>
+      rw [hold] at hev
+      by_cases hq : p old = true
+      · simp [hq] at hev; subst hev; exact absurd rfl hne
+      · simp [hq] at hev
+
+theorem good_createForNs (mc : MonCfg) (w : World) (ns : Option Nat) :
+    ∀ i ∈ createForNs mc.cfg mc.namesEff (mc.list w) ns, GoodInformer mc i ∧ i.ns = ns := by
+  intro i hi
+  unfold createForNs at hi
+  obtain ⟨nm, _, rfl⟩ := List.mem_map.1 hi
+  refine ⟨⟨(tracks_loadExisted mc.cfg _).1, fun e he => ?_⟩, rfl⟩
+  have ht := tracks_loadExisted mc.cfg (mc.list w ns nm)
+  have := ht.2 e.key
+  rw [kget_of_mem _ _ _ ht.1 he] at this
+  cases hm : specInit (mc.list w ns nm) e.key with
+  | none => simp [hm] at this
+  | some o =>
+    refine ⟨o, by simpa [hm] using this, ?_⟩
+    unfold specInit at hm
+    have hmem := List.mem_reverse.1 (List.mem_of_find?_eq_some hm)
+    unfold MonCfg.list at hmem
+    exact (List.mem_filter.1 hmem).2
+
+/-- preserving namespace and name preserves "cannot see the same object" -/
+theorem apart_map (l : List Informer) (f : Informer → Informer)
+    (hf : ∀ i, (f i).ns = i.ns ∧ (f i).name = i.name)
+    (h : l.Pairwise (fun i j => scopesApart i j = true)) :
+    (l.map f).Pairwise (fun i j => scopesApart i j = true) := by
+  rw [List.pairwise_map]
+  refine h.imp ?_
+  intro a b hab
+  unfold scopesApart at *
+  rw [(hf a).1, (hf a).2, (hf b).1, (hf b).2]
+  exact hab
+
+/-- Structural invariant of a reachable monitor (repaired `names()` / `namespaces()`). -/
+structure MInv (mc : MonCfg) (m : Monitor) : Prop where
+  staticApart : m.static.Pairwise (fun i j => scopesApart i j = true)
+  staticOnly : mc.nsSel = true → m.static = []
+  varyingOnly : mc.nsSel = false → m.varying = []
+  vkeys : (m.varying.map (·.1)).Nodup
+  vns : ∀ p ∈ m.varying, (∀ i ∈ p.2, i.ns = some p.1) ∧ p.2.Pairwise (fun i j => scopesApart i j = true)
+  good : ∀ i ∈ m.informers, GoodInformer mc i
+
+theorem minv_scopesDisjoint (mc : MonCfg) (m : Monitor) (h : MInv mc m) : ScopesDisjoint m := by
+  unfold ScopesDisjoint Monitor.informers
+  cases hs : mc.nsSel with
+  | false => rw [h.varyingOnly hs]; simpa using h.staticApart
+  | true =>
+    rw [h.staticOnly hs, List.nil_append, List.pairwise_flatten]
+    constructor
+    · intro l hl
+      obtain ⟨p, hp, rfl⟩ := List.mem_map.1 hl
+      exact (h.vns p hp).2
+    · rw [List.pairwise_map]
+      have hk := h.vkeys
+      rw [List.Nodup, List.pairwise_map] at hk
+      refine hk.imp_of_mem ?_
+      intro a b ha hb hab i hi j hj
+      have h1 := (h.vns a ha).1 i hi
+      have h2 := (h.vns b hb).1 j hj
+      simp [scopesApart, h1, h2, hab]
+
+theorem mem_informers (m : Monitor) (i : Informer) :
+    i ∈ m.informers ↔ i ∈ m.static ∨ ∃ p ∈ m.varying, i ∈ p.2 := by
+  unfold Monitor.informers
+  simp only [List.mem_append, List.mem_flatten, List.mem_map]
+  constructor
+  · rintro (h | ⟨l, ⟨p, hp, rfl⟩, hi⟩)
+    · exact Or.inl h
+    · exact Or.inr ⟨p, hp, hi⟩
+  · rintro (h | ⟨p, hp, hi⟩)
+    · exact Or.inl h
+    · exact Or.inr ⟨_, ⟨p, hp, rfl⟩, hi⟩
+
+theorem minv_mapInformers (mc : MonCfg) (m : Monitor) (f : Informer → Informer)
+    (hf : ∀ i, (f i).ns = i.ns ∧ (f i).name = i.name)
+    (hg : ∀ i, GoodInformer mc i → GoodInformer mc (f i))
+    (h : MInv mc m) : MInv mc (m.mapInformers f) :=
+  { staticApart := apart_map _ f hf h.staticApart
+    staticOnly := fun hs => by simp [Monitor.mapInformers, h.staticOnly hs]
+    varyingOnly := fun hs => by simp [Monitor.mapInformers, h.varyingOnly hs]
+    vkeys := by
+      have : ((m.mapInformers f).varying.map (·.1)) = m.varying.map (·.1) := by
+        simp [Monitor.mapInformers, List.map_map, Function.comp]
+      rw [this]; exact h.vkeys
+    vns := fun p hp => by
+      simp only [Monitor.mapInformers, List.mem_map] at hp
+      obtain ⟨q, hq, rfl⟩ := hp
+      refine ⟨fun i hi => ?_, apart_map _ f hf (h.vns q hq).2⟩
+      obtain ⟨j, hj, rfl⟩ := List.mem_map.1 hi
+      rw [(hf j).1]; exact (h.vns q hq).1 j hj
+    good := fun i hi => by
+      rw [mapInformers_informers] at hi
+      obtain ⟨j, hj, rfl⟩ := List.mem_map.1 hi
+      exact hg j (h.good j hj) }
+
+theorem createForNs_ns (cfg : Cfg) (names : List Nat) (list : Option Nat → Option Nat → List Obj)
+    (ns : Option Nat) : ∀ i ∈ createForNs cfg names list ns, i.ns = ns := by
+  intro i hi
+  unfold createForNs at hi
+  obtain ⟨nm, _, rfl⟩ := List.mem_map.1 hi
+  rfl
+
+theorem static_apart (cfg : Cfg) (names : List Nat) (hn : names.Nodup) (nsl : List (Option Nat))
+    (hnsl : nsl = [none] ∨ ∃ l : List Nat, l.Nodup ∧ nsl = l.map some)
+    (list : Option Nat → Option Nat → List Obj) :
+    ((nsl.map (fun ns => createForNs cfg names list ns)).flatten).Pairwise
+      (fun i j => scopesApart i j = true) := by
+  rcases hnsl with rfl | ⟨l, hl, rfl⟩
+  · simpa using createForNs_apart cfg names hn list none
+  · rw [List.pairwise_flatten]
+    constructor
+    · intro x hx
+      obtain ⟨n, _, rfl⟩ := List.mem_map.1 hx
+      exact createForNs_apart cfg names hn list n
+    · rw [List.map_map, List.pairwise_map]
+      refine hl.imp ?_
+      intro a b hab i hi j hj
+      have hia := createForNs_ns cfg names list (some a) i hi
+      have hjb := createForNs_ns cfg names list (some b) j hj
+      simp [scopesApart, hia, hjb, hab]
+
+theorem createInformers_static (mc : MonCfg) (w : World) :
+    (createInformers mc w).static =
+      (mc.namespaces.map (fun ns => createForNs mc.cfg mc.namesEff (mc.list w) ns)).flatten := rfl
+
+theorem createInformers_varying (mc : MonCfg) (w : World) :
+    (createInformers mc w).varying =
+      (((if mc.nsSel then dedupNames ((w.nss.filter (fun p => p.2 == 1)).map (·.1)) else []).filter
+        (fun n => !(mc.namespaces.filterMap id).contains n)).map
+          (fun n => (n, createForNs mc.cfg mc.namesEff (mc.list w) (some n)))) := rfl
+
+theorem minv_create (mc : MonCfg) (w : World) : MInv mc (createInformers mc w) := by
+  have hnsl : mc.nsSel = false →
+      (mc.namespaces = [none] ∨ ∃ l : List Nat, l.Nodup ∧ mc.namespaces = l.map some) := by
+    intro hs
+    unfold MonCfg.namespaces
+    simp only [hs, Bool.false_eq_true, if_false]
+    by_cases he : mc.nss.isEmpty = true
+    · left; simp [he]
+    · right; exact ⟨dedupNames mc.nss, dedupNames_nodup _, by simp [he]⟩
+  have hnil : mc.nsSel = true → mc.namespaces = [] := fun hs => by simp [MonCfg.namespaces, hs]
+  have hvar : ∀ p ∈ (createInformers mc w).varying, ∃ n, p = (n, createForNs mc.cfg mc.namesEff (mc.list w) (some n)) := by
+    intro p hp
+    rw [createInformers_varying] at hp
+    obtain ⟨n, _, rfl⟩ := List.mem_map.1 hp
+    exact ⟨n, rfl⟩
+  exact
+  { staticApart := by
+      rw [createInformers_static]
+      cases hs : mc.nsSel with
+      | true => rw [hnil hs]; exact List.Pairwise.nil
+      | false => exact static_apart mc.cfg mc.namesEff (dedupNames_nodup _) _ (hnsl hs) _
+    staticOnly := fun hs => by rw [createInformers_static, hnil hs]; rfl
+    varyingOnly := fun hs => by rw [createInformers_varying, hs]; rfl
+    vkeys := by
+      rw [createInformers_varying, List.map_map]
+      have : ((fun x : Nat × List Informer => x.1) ∘
+          fun n => (n, createForNs mc.cfg mc.namesEff (mc.list w) (some n))) = id := rfl
+      rw [this, List.map_id]
+      cases hs : mc.nsSel with
+      | true => exact List.Pairwise.filter _ (dedupNames_nodup _)
+      | false => simp
+    vns := fun p hp => by
+      obtain ⟨n, rfl⟩ := hvar p hp
+      exact ⟨createForNs_ns _ _ _ _, createForNs_apart _ _ (dedupNames_nodup _) _ _⟩
+    good := fun i hi => by
+      rw [mem_informers] at hi
+      rcases hi with hi | ⟨p, hp, hi⟩
+      · rw [createInformers_static] at hi
+        obtain ⟨l, hl, hil⟩ := List.mem_flatten.1 hi
+        obtain ⟨ns, _, rfl⟩ := List.mem_map.1 hl
+        exact (good_createForNs mc w ns i hil).1
+      · obtain ⟨n, rfl⟩ := hvar p hp
+        exact (good_createForNs mc w (some n) i hi).1 }
+
+theorem good_started (mc : MonCfg) (i : Informer) (h : GoodInformer mc i) :
+    GoodInformer mc { i with started := true } := h
+
+theorem minv_nsAdded (mc : MonCfg) (w : World) (m : Monitor) (n : Nat) (hs : mc.nsSel = true)
+    (h : MInv mc m) : MInv mc (nsAdded mc.cfg mc.namesEff (mc.list w) m n) := by
+  unfold nsAdded
+  split
+  · exact h
+  · split
+    · exact h
+    · rename_i hfind
+      have hnot : n ∉ m.varying.map (·.1) := by
+        intro hc
+        obtain ⟨p, hp, hpn⟩ := List.mem_map.1 hc
+        apply hfind
+        rw [List.find?_isSome]
+        exact ⟨p, hp, by simp [hpn]⟩
+      have hnew : ∀ i ∈ (createForNs mc.cfg mc.namesEff (mc.list w) (some n)).map ({ · with started := true }),
+          GoodInformer mc i ∧ i.ns = some n := by
+        intro i hi
+        obtain ⟨j, hj, rfl⟩ := List.mem_map.1 hi
+        exact good_createForNs mc w (some n) j hj
+      exact
+      { staticApart := h.staticApart
+        staticOnly := h.staticOnly
+        varyingOnly := fun hf => by rw [hs] at hf; cases hf
+        vkeys := by
+          simp only [List.map_append, List.map_cons, List.map_nil]
+          rw [List.nodup_append]
+          exact ⟨h.vkeys, by simp, by intro a ha b hb; simp at hb; subst hb; exact fun e => hnot (e ▸ ha)⟩
+        vns := fun p hp => by
+          rcases List.mem_append.1 hp with hp | hp
+          · exact h.vns p hp
+          · simp only [List.mem_singleton] at hp
+            subst hp
+            refine ⟨fun i hi => (hnew i hi).2, ?_⟩
+            exact apart_map _ _ (fun i => ⟨rfl, rfl⟩) (createForNs_apart _ _ (dedupNames_nodup _) _ _)
+        good := fun i hi => by
+          rw [mem_informers] at hi
+          rcases hi with hi | ⟨p, hp, hi⟩
+          · exact h.good i ((mem_informers m i).2 (Or.inl hi))
+          · rcases List.mem_append.1 hp with hp | hp
+            · exact h.good i ((mem_informers m i).2 (Or.inr ⟨p, hp, hi⟩))
+            · simp only [List.mem_singleton] at hp
+              subst hp
+              exact (hnew i hi).1 }
+
+theorem minv_nsDeleted (mc : MonCfg) (m : Monitor) (n : Nat) (h : MInv mc m) : MInv mc (nsDeleted m n) := by
+  unfold nsDeleted
+  split
+  · exact h
+  · exact
+    { staticApart := h.staticApart
+      staticOnly := h.staticOnly
+      varyingOnly := fun hf => by simp [h.varyingOnly hf]
+      vkeys := by
+        have := h.vkeys
+        rw [List.Nodup, List.pairwise_map] at this ⊢
+        exact this.filter _
+      vns := fun p hp => h.vns p (List.mem_filter.1 hp).1
+      good := fun i hi => by
+        rw [mem_informers] at hi
+        rcases hi with hi | ⟨p, hp, hi⟩
+        · exact h.good i ((mem_informers m i).2 (Or.inl hi))
+        · exact h.good i ((mem_informers m i).2 (Or.inr ⟨p, (List.mem_filter.1 hp).1, hi⟩)) }
+
+theorem minv_foldl_nsAdded (mc : MonCfg) (w : World) (ns : List Nat) (m : Monitor) (hs : mc.nsSel = true)
+    (h : MInv mc m) : MInv mc (ns.foldl (nsAdded mc.cfg mc.namesEff (mc.list w)) m) := by
+  induction ns generalizing m with
+  | nil => exact h
+  | cons n t ih => exact ih _ (minv_nsAdded mc w m n hs h)
+
+theorem minv_start (mc : MonCfg) (w : World) (m : Monitor) (h : MInv mc m) : MInv mc (startMonitor mc w m) := by
+  unfold startMonitor
+  have h1 : MInv mc (m.mapInformers (fun i =>
+      feed mc (fun i => (mc.list w i.ns i.name).map (fun o => (EvType.added, o))) { i with started := true })) := by
+    refine minv_mapInformers mc m _ (fun i => feed_ns mc _ _) (fun i hg => ?_) h
+    refine good_feed mc _ _ ?_ (good_started mc i hg)
+    intro ev hev _
+    obtain ⟨o, ho, rfl⟩ := List.mem_map.1 hev
+    unfold MonCfg.list at ho
+    exact (List.mem_filter.1 ho).2
+  cases hs : mc.nsSel with
+  | false => simpa [hs] using h1
+  | true => simpa [hs] using minv_foldl_nsAdded mc w _ _ hs h1
+
+theorem minv_objStep (mc : MonCfg) (w : World) (m : Monitor) (op : COp) (h : MInv mc m) :
+    MInv mc (objStep mc w m op).2 := by
+  unfold objStep
+  refine minv_mapInformers mc m _ (fun i => feed_ns mc _ _) (fun i hg => ?_) h
+  exact good_feed mc _ _ (watchOf_pred _ _ _) hg
+
+theorem minv_ns_choice (mc : MonCfg) (c1 c2 c3 : Bool) (w' : World) (m : Monitor) (n : Nat)
+    (hc : c1 = false → mc.nsSel = true) (h : MInv mc m) :
+    MInv mc (if c1 = true then m
+      else if c2 = true then nsAdded mc.cfg mc.namesEff (mc.list w') m n
+      else if c3 = true then nsDeleted m n else m) := by
+  cases c1 with
+  | true => simpa using h
+  | false =>
+    cases c2 with
+    | true => simpa using minv_nsAdded mc w' m n (hc rfl) h
+    | false =>
+      cases c3 with
+      | true => simpa using minv_nsDeleted mc m n h
+      | false => simpa using h
+
+theorem minv_nsStep (mc : MonCfg) (started : Bool) (w : World) (m : Monitor) (n : Nat) (lbl : Option Nat)
+    (h : MInv mc m) : MInv mc (nsStep mc started w m n lbl).2 := by
+  unfold nsStep
+  simp only
+  apply minv_ns_choice
+  · intro hc
+    cases hsel : mc.nsSel with
+    | true => rfl
+    | false => simp [hsel] at hc
+  · exact h
+
+theorem minv_run (mc : MonCfg) (w0 : World) (steps : List MStep) : MInv mc (runMonitor mc w0 steps).m := by
+  unfold runMonitor
+  suffices H : ∀ (s : MState), MInv mc s.m → MInv mc (steps.foldl (mstep mc) s).m from
+    H _ (minv_create mc w0)
+  induction steps with
+  | nil => intro s h; exact h
+  | cons st t ih =>
+    intro s h
+    apply ih
+    cases st with
+    | start => exact minv_start mc s.w s.m h
+    | obj op => exact minv_objStep mc s.w s.m op h
+    | ns n lbl => exact minv_nsStep mc s.started s.w s.m n lbl h
+
 end ShellOp.Snapshot
